@@ -138,13 +138,13 @@ func (m *FloodSub) Execute(ctx context.Context) error {
 			// }
 		}
 		m.incSessions = nil
-		m.mtx.Unlock() // intentional mtx hold-break
+		// keep holding mtx: the sweep must see the channels the initial set was
+		// built from, and the sessions registered above as its targets
 		verifGate(m, "break")
 		initSet = nil
 
 		var xmitPeers []*streamHandler
 		var subChanges []*SubscriptionOpts
-		m.mtx.Lock()
 		// sweep empty channels
 		for chid, chm := range m.channels {
 			if len(chm) == 0 {
